@@ -111,6 +111,15 @@ def check_opb(text, F, what, export_header=False, export_varnames=False, header_
             pat = re.compile(r'(?<![A-Za-z0-9_])x{}(?![0-9])'.format(vid))
             if not any(pat.search(c) and str(lab) in c[pat.search(c).end():] for c in res.comments):
                 raise Violation("{}: export_varnames=True but no comment maps x{} to its name {!r}".format(what, vid, lab))
+    if header_content and not export_header and not export_varnames and res.comments:
+        # the doctests of to_opb() pin the output without header and names: spec line and constraints only
+        raise Violation("{}: neither header nor variable names are exported, yet there is the comment {!r}".format(
+            what, res.comments[0][:80]))
+    if header_content and not export_header:
+        # "export_header determines whether the formula header should be inserted"; cnfgen -q: "no header"
+        for k, v in F.header.items():
+            if len(asc(v).strip()) >= 8 and any(asc(v) in c for c in res.comments):
+                raise Violation("{}: export_header=False but header field {!r}: {!r} is in a comment".format(what, k, v))
     if export_header and header_content:
         # docstring: "the formula header should be inserted as a comment"
         for k, v in F.header.items():
@@ -127,7 +136,7 @@ def check_opb(text, F, what, export_header=False, export_varnames=False, header_
 _PAGEBREAK = re.compile(r'\\(pagebreak|newpage|clearpage)(?![A-Za-z])')
 
 
-def check_latex(text, F, what, document):
+def check_latex(text, F, what, document, export_header=None):
     if not isinstance(text, str):
         raise Violation("{}: not a string but {}".format(what, type(text).__name__))
     doc = read_latex(text)
@@ -152,6 +161,15 @@ def check_latex(text, F, what, document):
             raise Violation("{}: the snippet contains a preamble or a document environment".format(what))
         if len(doc.blocks) != 1:
             raise Violation("{}: the snippet has {} align environments".format(what, len(doc.blocks)))
+    if document and export_header is not None:
+        # "export_header determines whether the formula header should be inserted ... in the output"
+        for k, v in F.header.items():
+            if k == 'description' or ' object at 0x' in str(v) or len(asc(v).strip()) < 8:
+                continue            # the description is the title in either case
+            if export_header and asc(v) not in text:
+                raise Violation("{}: export_header=True but header field {!r}: {!r} is not in the document".format(what, k, v))
+            if not export_header and asc(v) in text:
+                raise Violation("{}: export_header=False but header field {!r}: {!r} is in the document".format(what, k, v))
     got = [r for blk in doc.blocks for r in blk]
     if len(rows) == 0:
         if len(got) != 1 or got[0].kind != 'top' or len(doc.blocks) != 1:
@@ -200,7 +218,7 @@ def check_format(fmt, text, F, what, eh, ev, header_content=True):
     if fmt == 'opb':
         check_opb(text, F, what, export_header=eh, export_varnames=ev, header_content=header_content)
     elif fmt == 'latex':
-        check_latex(text, F, what, document=True)
+        check_latex(text, F, what, document=True, export_header=eh if header_content else None)
     else:
         check_dimacs_selected(text, what)
 
@@ -278,7 +296,8 @@ def render_everything(F, case, labels, header_content=True):
               export_header=eh, export_varnames=ev, header_content=header_content)
     buf = io.StringIO()
     F.to_file(buf, fileformat='latex', export_header=eh, export_varnames=ev, extra_text=extra)
-    check_latex(buf.getvalue(), F, "to_file(fileformat='latex', export_header={})".format(eh), document=True)
+    check_latex(buf.getvalue(), F, "to_file(fileformat='latex', export_header={})".format(eh), document=True,
+                export_header=eh if header_content and not extra else None)
     target = case.get('target')
     if target:
         req = target.get('request')
@@ -812,7 +831,7 @@ def run_shield(case):
         # the content of multi-line fields is not looked for (how a line break inside a
         # comment is to be rendered is the tree's choice) - only that it stays a comment
         check_opb(text, F, "to_file(fileformat='opb', export_header={}, export_varnames={})".format(eh, ev),
-                  export_header=False, export_varnames=False)
+                  export_header=False, export_varnames=False, header_content=False)
     except Violation as v:
         if v.signature == 'opb-non-comment-line':
             raise Violation("{} -- header {!r} / names {!r}".format(v, case.get('header'), list(F.all_variable_labels())[:4]),
